@@ -24,11 +24,11 @@ int main() {
   std::string line;
   while (std::getline(std::cin, line)) {
     Req r; Resp R;
-    if (!parseReq(line, r) || r.dbg != built_dbg) { std::cout << "bad-op\n"; continue; }
+    if (!parseReq(line, r) || r.dbg != built_dbg) { std::cout << "bad-op\n" << std::flush; continue; }
     auto it = table.find(r.group);
-    if (it == table.end()) { std::cout << "bad-op\n"; continue; }
+    if (it == table.end()) { std::cout << "bad-op\n" << std::flush; continue; }
     it->second(r, R);
-    std::cout << formatResp(R) << "\n";
+    std::cout << formatResp(R) << "\n" << std::flush;
   }
   return 0;
 }
